@@ -5,6 +5,7 @@ import os
 import shutil
 import subprocess
 import sys
+import tempfile
 
 
 def sh(cmd, cwd=None, env=None, timeout=3000):
@@ -15,6 +16,10 @@ def sh(cmd, cwd=None, env=None, timeout=3000):
 def main():
     pid, wt = sys.argv[1], sys.argv[2]
     checks = sys.argv[3:] or [pid]
+    if not os.path.exists(os.path.join(wt, "patch.diff")):      # worktree gone: re-evaluate the kept seed
+        wt = tempfile.mkdtemp(prefix="verif-seedsrc-", dir="/var/tmp")
+        for f in ("patch.diff", "demo_%s.py" % pid):
+            shutil.copy(os.path.join("/verif/seeded", pid, f), wt)
     patch = os.path.join(wt, "patch.diff")
     demo = os.path.join(wt, "demo_%s.py" % pid)
     scratch = "/var/tmp/verif-seed-%s-repo" % pid
